@@ -674,7 +674,7 @@ theorem step_send {t : Table} (hok : sigOK t = true) {fl : Flags} {Γ Γ' : SEnv
     (hc : checkStmt t fl Γ (.send x) = .ok Γ') :
     ∃ σ', runStmt fl σ (.send x) = .ok σ' ∧ Inv Γ' σ' := by
   have hth : threadsAdequate t = true := by
-    unfold sigOK at hok; simp only [Bool.and_eq_true] at hok; exact hok.2
+    unfold sigOK at hok; simp only [Bool.and_eq_true] at hok; exact hok.1.2
   simp only [checkStmt] at hc
   split at hc
   · cases hc
@@ -719,7 +719,7 @@ theorem step_share {t : Table} (hok : sigOK t = true) {fl : Flags} {Γ Γ' : SEn
     (hc : checkStmt t fl Γ (.share x) = .ok Γ') :
     ∃ σ', runStmt fl σ (.share x) = .ok σ' ∧ Inv Γ' σ' := by
   have hth : threadsAdequate t = true := by
-    unfold sigOK at hok; simp only [Bool.and_eq_true] at hok; exact hok.2
+    unfold sigOK at hok; simp only [Bool.and_eq_true] at hok; exact hok.1.2
   simp only [checkStmt] at hc
   split at hc
   · cases hc
@@ -1005,11 +1005,16 @@ theorem access_ok {Γ Γ1 : SEnv} {e : Entry} {r : Recv} (h : Γ.access e r = .o
 
 theorem sigOK_sig {t : Table} (hok : sigOK t = true) {s : Sig} (hs : s ∈ t.sigs) : sigAdequate s = true := by
   unfold sigOK at hok; simp only [Bool.and_eq_true] at hok
-  exact List.all_eq_true.1 hok.1.1.1.1.1 s hs
+  exact List.all_eq_true.1 hok.1.1.1.1.1.1 s hs
+
+theorem sigOK_conv {t : Table} (hok : sigOK t = true) {input name : String} {c : ValueConv}
+    (hl : t.lookupConv input name = some c) : c.tied = true := by
+  unfold sigOK at hok; simp only [Bool.and_eq_true] at hok
+  exact List.all_eq_true.1 hok.2 c (List.mem_of_find?_eq_some hl)
 
 theorem sigOK_impls {t : Table} (hok : sigOK t = true) : t.implLt .refMutBump = none := by
   unfold sigOK at hok; simp only [Bool.and_eq_true] at hok
-  have h := hok.1.1.1.1.2
+  have h := hok.1.1.1.1.1.2
   unfold Table.implLt
   cases hf : t.scopeImpls.find? (fun i => i.ty == ImplTy.refMutBump) with
   | none => rfl
